@@ -294,7 +294,7 @@ impl Scenario for C07 {
         "Seeded sequences of 1-16 syntactically valid frames sent by the simulated server into an established session (channel 1 open with a consumer, channel 2 open, channel 5 not open, channel 0), over an alphabet with one letter per arm of the client's frame dispatch: Deliver (known / unknown tag), Return, unsolicited GetOk, content header with announced size from {0,1,10,37,2^31,2^32,2^63,2^64-1}, body frames of 0..37 bytes, ConsumeOk (duplicate / fresh tag), client-only methods, unimplemented classes, unexpected channel-0 methods, heartbeats; a coherent Deliver+header+body prefix is often prepended and cut at a random point so that every collector state (idle, after method, after header with partial body) is entered before the stray frame. The sequence ends with Connection.Close(320). Worker processes run under a 3 GiB address-space limit, so an allocation sized by an announced body aborts the process, which the driver reports with the case. Oracle: reference reader written from the statement (first violating frame decides: FrameUnexpected / ReceivedFrameWithBogusChannelId / UnknownConsumerTag / DuplicateConsumerTag / ClientException with Connection.Close carrying 530 or 540 as the last frame written; otherwise ServerClosedConnection(320)); the consumer received exactly the deliveries completed before that point, byte-identical; no panic. Unsolicited GetOk / fresh ConsumeOk put a run into safety-half-only mode. Non-trivial = the sequence contains a violation reached with the collector of that channel not idle, or an announced size >= 2^31; distinct = hash of the letter sequence.".to_string()
     }
     fn plan(&self, thorough: bool, seed: u64) -> Vec<CaseSpec> {
-        plan_random("C07", "violations", seed, if thorough { 200_000 } else { 10_000 })
+        plan_random("C07", "violations", seed, if thorough { 600_000 } else { 40_000 })
     }
     fn run_case(&self, spec: &CaseSpec, text: bool) -> CaseReport {
         let mut cs = spec.stream();
